@@ -62,7 +62,8 @@ def c02_module(name, dfa, rs, ncls, leaves):
     s += ('Theorem checks : equiv_check tbll tblc A ms rs (%s) = true /\\ start_not_accepting A = true /\\ '
           'wf_dfa %d A = true /\\ dfa_okb A = true /\\ length rs = %d%%nat.\n' % (FUEL, ncls, len(rs)))
     s += ('Proof. pose proof check2 as H. apply andb_true_iff in H as [H H4]. apply andb_true_iff in H as [H H3]. '
-          'apply andb_true_iff in H as [H1 H2]. apply Nat.eqb_eq in H4. repeat split; auto. exact check1. Qed.\n')
+          'apply andb_true_iff in H as [H1 H2]. apply Nat.eqb_eq in H4. '
+          'split; [exact check1|]. split; [exact H1|]. split; [exact H2|]. split; [exact H3|exact H4]. Qed.\n')
     s += ('Theorem inst : forall w, w <> [] -> Forall (fun c => In c ms) w -> forall t,\n'
           '  accepts_tok tblc A w t <-> exists r, In (t,r) rs /\\ mt tbll r w.\n')
     s += 'Proof. apply (equiv_check_sound tbll tblc A ms rs (%s)). apply checks. Qed.\n' % FUEL
